@@ -50,6 +50,24 @@ def r_C26eval(root):
         for pr in ("C26", "C30"): ob(pr, "C26.g", RG, "generator_description", "(%s, %s, any_permitted=%s) -> %s" % (lang, target, anyp, got), ok)
         if not ok:
             for pr in ("C26", "C30"): out.append(Finding(pr, "C26.g", RG, "generator_description", "(%r, %r, any_permitted=%s)" % (lang, target, anyp), "generator lookup yields %s, documented %s (the language's own generator for the target, else with any_permitted the one registered for 'any', else TextXRegistrationError)" % (got, want), witness="a language with a generator for another target; the requested target registered only for 'any'"))
+    # ---- generator_for_language_target: the callable of the very description generator_description finds (same normalisation, same fallback)
+    if "generator_for_language_target" in fns:
+        gf = fns["generator_for_language_target"]; gps = [a.arg for a in gf.args.args]
+        def gen_(tag): return {".t": tag, ".generator": ("callable of", tag)}
+        GEN = {"lang": {"t1": gen_("lang/t1")}, "any": {"t2": gen_("any/t2"), "t1": gen_("any/t1")}}
+        for (lang, target, anyp), want in ((("lang", "t1", True), "lang/t1"), (("Lang", "T1", True), "lang/t1"), (("LANG", "t1", False), "lang/t1"), (("lang", "t2", True), "any/t2"), (("nolang", "t1", True), "any/t1"), (("nolang", "t1", False), "raise TextXRegistrationError")):
+            inst += 1
+            e0 = {"__functions__": dict(fns), "generators": GEN, "generator_descriptions": pyeval.PyFn(lambda: GEN), "__module__": t, gps[0]: lang, gps[1]: target}
+            if len(gps) > 2: e0[gps[2]] = anyp
+            e0["__functions__"].pop("generator_for_language_target", None)
+            try: k, v = "ret", pyeval.run_block(gf.body, e0)
+            except pyeval.Raised as r_: k, v = "raise", r_.cls
+            except pyeval.Unsupported as u_: raise AnalysisError("generator_for_language_target: outside the evaluated subset: %s" % u_)
+            got = v[1] if k == "ret" and isinstance(v, tuple) and len(v) == 2 else "%s %s" % (k, v)
+            ok = got == want
+            for pr in ("C26", "C30"): ob(pr, "C26.g", RG, "generator_for_language_target", "(%s, %s, any_permitted=%s) -> %s" % (lang, target, anyp, got), ok)
+            if not ok:
+                for pr in ("C26", "C30"): out.append(Finding(pr, "C26.g", RG, "generator_for_language_target", "(%r, %r, any_permitted=%s)" % (lang, target, anyp), "the generator callable found is %s, documented %s (names are case-insensitive; the language's own generator wins over the one registered for any language)" % (got, want)))
     # ---- clear_generator_registrations
     inst += 1
     k, v, e = run("clear_generator_registrations", {"generators": {"lang": {"t1": {".project_name": "p"}}, "any": {"t2": {".project_name": None}}}})
